@@ -453,6 +453,8 @@ def _merge_python_version_single_markers(
         full_version_marker = marker1
 
     normalized_specifier = _normalize_python_version_specifier(version_marker)
+    if normalized_specifier is None:
+        return None
 
     if merge_class is MultiMarker:
         merged = normalized_specifier & full_version_marker.specifier
@@ -465,7 +467,16 @@ def _merge_python_version_single_markers(
     return MarkerExpression.from_specifier("python_full_version", merged)
 
 
-def _normalize_python_version_specifier(marker: MarkerExpression) -> BaseSpecifier:
+def _normalize_python_version_specifier(
+    marker: MarkerExpression,
+) -> BaseSpecifier | None:
+    """The python_full_version constraint a python_version atom amounts to.
+
+    python_version holds major.minor only, so an operand with more than two
+    significant components or with a pre/post/dev segment (python_version >= "3.8.1")
+    does not constrain the patch level the way its own specifier does: return None
+    and leave such an atom unmerged.
+    """
     from dep_logic.specifiers import parse_version_specifier
 
     op, value = marker.op, marker.value
@@ -474,13 +485,14 @@ def _normalize_python_version_specifier(marker: MarkerExpression) -> BaseSpecifi
         return marker.specifier
     splitted = [p.strip() for p in value.split(".")]
     if "*" in splitted:
-        return marker.specifier
+        # "3.*" and "3.8.*" select whole minor series, a deeper wildcard does not
+        return marker.specifier if len(splitted) <= 3 else None
     if op != "~=":
         # python_version has two components: "3.8.0" compares like "3.8"
         while len(splitted) > 2 and splitted[-1].isdigit() and int(splitted[-1]) == 0:
             splitted.pop()
-    if len(splitted) > 2:
-        return marker.specifier
+    if len(splitted) > 2 or not all(p.isdigit() for p in splitted):
+        return None
     if len(splitted) == 1 and op != "~=":
         # python_version is always major.minor: "3" means "3.0"
         splitted.append("0")
